@@ -19,7 +19,7 @@ ID = "C17"
 LEVEL = "exploration"
 TECHNIQUE = "generated timed event sequences (Hypothesis) under a harness-owned clock vs reference lifetime model; small real-time cross-check in the thorough tier"
 RULE = ("cases = timelines over <= 5 instances: create (start-instance with or without a session, or a start-instances batch) with a timeout given in one unit or a mix of units (weeks .. microseconds), "
-        "instance-scoped requests (run-step, session-results, begin-session), keep-alive, metrics, full-metrics, and clock advances "
+        "instance-scoped requests (run-step, session-results, begin-session, end-session, a stream that is opened and left open), keep-alive, metrics, full-metrics, and clock advances "
         "to just before / exactly at / just after an instance's expiry; with and without FileAdapter. After every event the server "
         "is compared with the reference: not-expired instances answer and are counted, instances expired at a sweep (metrics, "
         "full-metrics, creation, access to another instance) are gone, destroyed once, refused - or restored if externalised. "
